@@ -55,6 +55,49 @@ func zzhCheckNumberingRefs(pkg map[string][]byte, what string) {
 	}
 }
 
+// zzhCheckNoteRefs: every footnote/endnote reference of the main part has its note in the
+// footnotes/endnotes part.
+func zzhCheckNoteRefs(pkg map[string][]byte, what string) {
+	es, _ := zzhParse(pkg["word/document.xml"])
+	for _, kind := range []string{"footnote", "endnote"} {
+		var notes []zzhElem
+		if part, has := pkg["word/"+kind+"s.xml"]; has {
+			notes, _ = zzhParse(part)
+		}
+		for _, e := range es {
+			if e.Name != kind+"Reference" {
+				continue
+			}
+			found := false
+			for _, n := range notes {
+				if n.Name == kind && n.Attr("id") == e.Attr("id") {
+					found = true
+				}
+			}
+			zzvAssert(found, what+": every note id referenced in the body is defined in the notes part")
+		}
+	}
+}
+
+// zzhCheckNotesDefined: the notes the body marks ([1], [2], ... - the registries were reset, so
+// ids count from 1) are defined in the notes part.
+func zzhCheckNotesDefined(pkg map[string][]byte, what, kind string, n int) {
+	if n == 0 {
+		return
+	}
+	notes, ok := zzhParse(pkg["word/"+kind+"s.xml"])
+	zzvAssert(ok, what+": the notes part decodes")
+	for id := 1; id <= n; id++ {
+		found := false
+		for _, e := range notes {
+			if e.Name == kind && e.Attr("id") == zzvItoa(id) {
+				found = true
+			}
+		}
+		zzvAssert(found, what+": every note the body refers to is defined in the notes part")
+	}
+}
+
 func zzhSavedPackage(d *Document, what string) map[string][]byte {
 	data, err := d.ToBytes()
 	zzvAssert(err == nil, what+": ToBytes succeeds")
@@ -71,8 +114,10 @@ func ZZH_C13_StyleAndNumberingRefs() {
 	k := zzvBound("styled_ops", 2, 3)
 	saved := false
 	used := map[int]bool{}
+	redefined := ""
+	nFoot, nEnd := 0, 0
 	for i := 0; i < k; i++ {
-		switch zzvChoice(7) {
+		switch zzvChoice(10) {
 		case 0:
 			lv := zzvIntIn(-1, 10)
 			d.AddHeadingParagraph("h", lv)
@@ -105,6 +150,18 @@ func ZZH_C13_StyleAndNumberingRefs() {
 			lv := 1 + zzvChoice(3)
 			d.AddHeadingParagraph("h", lv)
 			used[lv] = true
+		case 7:
+			zzvAssume(d.AddFootnote("t", "note "+zzvItoa(i)) == nil)
+			nFoot++
+		case 8:
+			zzvAssume(d.AddEndnote("t", "endnote "+zzvItoa(i)) == nil)
+			nEnd++
+		case 9:
+			// an existing style is defined anew through the style API
+			if !saved {
+				redefined = "Redefined" + zzvItoa(i)
+				d.GetStyleManager().AddStyle(&style.Style{Type: "paragraph", StyleID: "Quote", Name: &style.StyleName{Val: redefined}})
+			}
 		}
 	}
 	label := "save"
@@ -114,5 +171,22 @@ func ZZH_C13_StyleAndNumberingRefs() {
 	pkg := zzhSavedPackage(d, label)
 	zzhCheckStyleRefs(pkg, label)
 	zzhCheckNumberingRefs(pkg, label)
+	zzhCheckNoteRefs(pkg, label)
+	zzhCheckNotesDefined(pkg, label, "footnote", nFoot)
+	zzhCheckNotesDefined(pkg, label, "endnote", nEnd)
+	if redefined != "" {
+		es, _ := zzhParse(pkg["word/styles.xml"])
+		found := false
+		for i, e := range es {
+			if e.Name == "style" && e.Attr("styleId") == "Quote" {
+				for j := i + 1; j < len(es) && es[j].Depth > e.Depth; j++ {
+					if es[j].Name == "name" && es[j].Attr("val") == redefined {
+						found = true
+					}
+				}
+			}
+		}
+		zzvAssert(found, label+": a style changed through the style API is written with its new definition")
+	}
 	zzvReach("checked")
 }
